@@ -3,7 +3,7 @@ import KonstVerif.Model.Utf8
   Model of the code `parser_method!` expands to.
 
   mirrors:
-    konst/src/macros/parser_method.rs      __priv_pa_strip_prefix/_suffix, __priv_pa_find_skip_either,
+    konst/src/macros/parser_method.rs      __priv_pa_strip_prefix/_suffix, __priv_pa_find_skip_either (as of 5e6c5eb),
                                            __priv_pa_trim_matches_inner, __priv_pa_bytes_accessor
     konst_proc_macros/src/lib.rs           bstr_pattern: literal -> `[b0, b1, .., rem @ ..]` (Start)
                                            or `[rem @ .., b0, b1, ..]` (End)
@@ -78,7 +78,30 @@ def stripSuffix (arms : List (Nat × List Nat)) (p : PState) : Outcome :=
   | some (i, rem) => (some i, setEnd p rem)
   | none => (none, p)
 
-/-- the `loop` of `__priv_pa_find_skip_either` with `[_, brem @ ..]` -/
+/-- the search `loop` of `__priv_pa_find_skip_either` with `[_, brem @ ..]` (since 5e6c5eb it contains no caller
+    code): `match bytes { pats => break, _ => if let [_, brem @ ..] = bytes { bytes = brem } else { break } }`.
+    Result = the `bytes` the loop leaves: the first tail at whose start an alternative matches, else `[]`. -/
+def searchLoop (arms : List (Nat × List Nat)) : List Nat → List Nat
+  | [] => []
+  | b :: brem =>
+    match firstArm matchStart arms (b :: brem) with
+    | some _ => b :: brem
+    | none => searchLoop arms brem
+
+/-- the same loop with `[brem @ .., _]` (fuel = number of bytes that can still be dropped) -/
+def rsearchLoop (arms : List (Nat × List Nat)) : Nat → List Nat → List Nat
+  | fuel, bytes =>
+    match firstArm matchEnd arms bytes with
+    | some _ => bytes
+    | none =>
+      match fuel with
+      | 0 => bytes
+      | f + 1 => if bytes = [] then bytes else rsearchLoop arms f bytes.dropLast
+
+/-- The search loop and the `match bytes { pats(rem) => .., _ => default }` that follows it, FUSED into one loop
+    (this is literally the loop as it was before 5e6c5eb, when the bodies were pasted inside it).  The theorems
+    about the find forms are stated on this form; `Props.C18.search_then_match` proves it equal to what the
+    code does now (`firstArm matchStart arms (searchLoop arms bytes)`). -/
 def findLoop (arms : List (Nat × List Nat)) : List Nat → Option (Nat × List Nat)
   | [] => firstArm matchStart arms []
   | b :: brem =>
@@ -86,7 +109,6 @@ def findLoop (arms : List (Nat × List Nat)) : List Nat → Option (Nat × List 
     | some r => some r
     | none => findLoop arms brem
 
-/-- the same loop with `[brem @ .., _]` (fuel = number of bytes that can still be dropped) -/
 def rfindLoop (arms : List (Nat × List Nat)) : Nat → List Nat → Option (Nat × List Nat)
   | fuel, bytes =>
     match firstArm matchEnd arms bytes with
@@ -96,13 +118,14 @@ def rfindLoop (arms : List (Nat × List Nat)) : Nat → List Nat → Option (Nat
       | 0 => none
       | f + 1 => if bytes = [] then none else rfindLoop arms f bytes.dropLast
 
+/-- `parser_method!{p, find_skip; ..}`: search loop, then the `match` that runs `set` and the chosen body -/
 def findSkip (arms : List (Nat × List Nat)) (p : PState) : Outcome :=
-  match findLoop arms p.rem with
+  match firstArm matchStart arms (searchLoop arms p.rem) with
   | some (i, rem) => (some i, setStart p rem)
   | none => (none, p)
 
 def rfindSkip (arms : List (Nat × List Nat)) (p : PState) : Outcome :=
-  match rfindLoop arms p.rem.length p.rem with
+  match firstArm matchEnd arms (rsearchLoop arms p.rem.length p.rem) with
   | some (i, rem) => (some i, setEnd p rem)
   | none => (none, p)
 
